@@ -485,7 +485,14 @@ status_t RawDataQueryFilter :: SaveToArchive(Message & archive) const
    {
       const uint32 numBytes = dd->GetNumBytes();
       const uint8 * bytes = dd->GetBuffer();
-      if (bytes) MRETURN_ON_ERROR(archive.AddData("def", B_RAW_TYPE, bytes, numBytes));  // I'm deliberately not testing if (numBytes>0) here!
+      if ((bytes)&&(numBytes > 0)) MRETURN_ON_ERROR(archive.AddData("def", B_RAW_TYPE, bytes, numBytes));
+      else
+      {
+         // An empty default-value needs to be archived also, but AddData() won't accept zero bytes, so we add it by-reference instead
+         ByteBufferRef emptyBuf = GetByteBufferFromPool(0);
+         MRETURN_ON_ERROR(emptyBuf);
+         MRETURN_ON_ERROR(archive.AddFlat("def", emptyBuf));
+      }
    }
 
    return B_NO_ERROR;
@@ -512,6 +519,16 @@ status_t RawDataQueryFilter :: SetFromArchive(const Message & archive)
    {
       _default = GetByteBufferFromPool(numBytes, (const uint8 *) data);
       MRETURN_ON_ERROR(_default);
+   }
+   else
+   {
+      // FindData() doesn't find zero-length data items, so check for an empty default-value separately
+      ConstByteBufferRef emptyBuf;
+      if ((archive.FindFlat("def", emptyBuf).IsOK())&&(emptyBuf())&&(emptyBuf()->GetNumBytes() == 0))
+      {
+         _default = GetByteBufferFromPool(0);
+         MRETURN_ON_ERROR(_default);
+      }
    }
 
    return B_NO_ERROR;
